@@ -308,13 +308,13 @@ theorem readonly_class_assignment (s : St) (c : CId) (n : Name) (v : Obj) (p : P
   · exact Or.inl rfl
 
 /-- a constructor keyword naming a read-only parameter is refused: TypeError (ValueError when an earlier
-keyword is invalid), no instance is created -/
+keyword is invalid), no instance is created (plain values: no silent references among the keywords) -/
 theorem readonly_keyword_refused (s : St) (hwf : WF s) (c : CId) (kw : List (Name × Obj))
     (h : ∃ nv ∈ kw, ∃ p o q, descriptor s c nv.1 = some (p, o) ∧ s.heap[p]? = some q ∧ q.readonly = true)
-    (k : Cls) (hk : s.classes[c]? = some k) :
+    (k : Cls) (hk : s.classes[c]? = some k) (hs : s.silent = []) :
     step s (.newInst c kw) = (s, .typeError) ∨ step s (.newInst c kw) = (s, .valueError) := by
   simp only [step, hk]
-  rcases applyKw_readonly hwf c kw _ h with e | e <;> rw [e]
+  rcases applyKw_readonly hwf c kw _ h hs with e | e <;> rw [e]
   · exact Or.inl rfl
   · exact Or.inr rfl
 
@@ -626,6 +626,14 @@ example :
     (step (step s (.setName 0 8)).1 (.instSet 0 "c" 5)).2 = .typeError ∧
     (step s (.failingEntry 0 "c")).2 = .runtimeError ∧
     (step (step s (.failingEntry 0 "c")).1 (.instSet 1 "name" 5)).2 = .typeError := by decide
+/-- a constructor keyword that is a reference with nothing to deliver yet stores nothing: the constant
+is referenced on the new instance all the same, so a later class-level assignment does not reach it -/
+example :
+    let s : St := { heap := [{ constant := true, readonly := false, default := 0, allowRefs := true },
+                             { constant := true, readonly := false, default := 1, strOnly := true }],
+                    classes := witnessState.classes, insts := [], nextObj := 4, silent := [7] }
+    stored (step s (.newInst 0 [("c", 7)])).1 0 "c" = some 0 ∧
+    held (run s [.newInst 0 [("c", 7)], .clsSet 0 "c" 5]) 0 "c" = some 0 := by decide
 /-- the initial state built by `declare` -/
 example : clsFlags (initState 4 [([0], [("c", true, false, 0, false), ("r", false, true, 2, false)]), ([1, 0], [])]) 1 "r"
     = some (true, true) := by decide
